@@ -180,7 +180,7 @@ def diff_state(a, b):
 def load_modules():
     import rpft
 
-    mods = []
+    mods = [rpft]
     for m in sorted(pkgutil.walk_packages(rpft.__path__, "rpft."), key=lambda m: m.name):
         mods.append(importlib.import_module(m.name))
     for hd in list(logging.getLogger("main").handlers):
